@@ -293,6 +293,13 @@ std::string Translator::constExpr(const Constant* C, int tid, bool inInit) {
       return "((" + cty(T) + ")(" + constExpr(CE->getOperand(0), tid, inInit) + " " + op + " " +
              constExpr(CE->getOperand(1), tid, inInit) + "))";
     }
+    case Instruction::ICmp: {
+      // e.g. the weak-symbol test 'icmp ne (@__pthread_key_create, null)' of libstdc++'s __gthread_active_p()
+      auto pred = CE->getPredicate();
+      if (pred != CmpInst::ICMP_EQ && pred != CmpInst::ICMP_NE) refuse("constant icmp with an ordering predicate");
+      return "((uint8_t)(" + constExpr(CE->getOperand(0), tid, inInit) + (pred == CmpInst::ICMP_EQ ? " == " : " != ") +
+             constExpr(CE->getOperand(1), tid, inInit) + "))";
+    }
     case Instruction::Trunc:
     case Instruction::ZExt:
       return mask("((" + cty(T) + ")" + constExpr(CE->getOperand(0), tid, inInit) + ")",
